@@ -468,7 +468,9 @@ func (t *streamableHTTPClientTransport) handleSSEResponse(
 
 			// Process event ID
 			if strings.HasPrefix(line, "id:") {
-				t.lastEventID = strings.TrimSpace(strings.TrimPrefix(line, "id:"))
+				if id := strings.TrimSpace(strings.TrimPrefix(line, "id:")); isValidEventID(id) {
+					t.lastEventID = id
+				}
 				continue
 			}
 
@@ -739,7 +741,9 @@ func (t *streamableHTTPClientTransport) handleGetSSEEvents(ctx context.Context, 
 			if strings.HasPrefix(line, "id:") {
 				eventID = strings.TrimPrefix(line, "id:")
 				eventID = strings.TrimSpace(eventID)
-				t.lastEventID = eventID
+				if isValidEventID(eventID) {
+					t.lastEventID = eventID
+				}
 			} else if strings.HasPrefix(line, "data:") {
 				data := strings.TrimPrefix(line, "data:")
 				data = strings.TrimSpace(data)
@@ -755,10 +759,24 @@ func (t *streamableHTTPClientTransport) handleGetSSEEvents(ctx context.Context, 
 	return nil
 }
 
+// isValidEventID reports whether a server-supplied SSE event id can be echoed back in
+// the Last-Event-ID header: net/http refuses a request whose header value contains a
+// control character, so remembering such an id would make every later request fail.
+func isValidEventID(id string) bool {
+	for i := 0; i < len(id); i++ {
+		if c := id[i]; (c < 0x20 && c != '\t') || c == 0x7f {
+			return false
+		}
+	}
+	return true
+}
+
 // Process SSE event.
 func (t *streamableHTTPClientTransport) processSSEEvent(eventID, eventData string) {
 	// Store the last event ID for connection recovery.
-	t.lastEventID = eventID
+	if isValidEventID(eventID) {
+		t.lastEventID = eventID
+	}
 
 	// Skip empty events.
 	if eventData == "" {
